@@ -450,7 +450,7 @@ public:
     auto e = std::lower_bound(
         edge_begin(N1), edge_end(N1), N2,
         [=](edge_iterator e, GraphNode N) { return getEdgeDst(e) < N; });
-    return (getEdgeDst(e) == N2) ? e : edge_end(N1);
+    return (e != edge_end(N1) && getEdgeDst(e) == N2) ? e : edge_end(N1);
   }
 
   runtime::iterable<NoDerefIterator<edge_iterator>>
